@@ -57,7 +57,7 @@ class DynWrite(Case):
             return cs
         Case.__init__(s, f'w{kind[:3]}_{SHORT[T]}_{"x".join(map(str, shape))}_{"x".join(map(str, oshape))}_{OPN[op]}{macro_tag}', [a] + extra + sc, k, r,
                       desc=f'A({seqs}) {op} {fr}: parent {shape}, extent {oshape}, {T}', pre=pre)
-        s.dom = 'real' if kind == 'matvec' else ('uf' if T in FT else 'bits'); s.uf_int = T in IT; s.max_paths = 400; s.timeout = 20
+        s.dom = 'real' if kind == 'matvec' else ('uf' if T in FT else 'bits'); s.uf_int = T in IT; s.max_paths = 400; s.timeout = 20; s.weight = 40 if len(shape) > 1 else (10 if oshape[0] >= 8 else 3)
         if T in FT and op == '/=' and kind == 'scalar': s.alt_ref_src = r.replace(apply_op(T, op, dst, sr), f'{dst} *= (({T})1/x[0]);')
 
 
@@ -106,7 +106,7 @@ class TwoWrites(Case):
         r = (f'long F0={norm_c("f0", N)}; long F1={norm_c("f1", N)}; for(int q=0;q<{n};++q) a[F0+q*s0]=b[q]; for(int q=0;q<{n};++q) {{ ' + apply_op(T, '+=', 'a[F1+q*s1]', 'c[q]') + ' }')
         def pre(V): return seq_pre(V, 'f0', 'l0', 's0', N, n) + seq_pre(V, 'f1', 'l1', 's1', N, n)
         Case.__init__(s, f'two_{SHORT[T]}_{N}_{n}', [a, b, c] + sc, k, r, desc=f'A(r1)=B; A(r2)+=C on Tensor<{T},{N}>, extent {n}', pre=pre)
-        s.dom = 'uf' if T in FT else 'bits'; s.uf_int = T in IT; s.max_paths = 400; s.timeout = 30
+        s.dom = 'uf' if T in FT else 'bits'; s.uf_int = T in IT; s.max_paths = 400; s.timeout = 30; s.weight = 50
 
 
 OPS = ['=', '+=', '-=', '*=', '/=']
